@@ -7,7 +7,7 @@ CHECKS = {
  "C01": dict(
    technique="exhaustive enumeration of the finite input space against a walked reference calendar (differential oracle) + proptest-generated nth_weekday cases",
    category="exploration",
-   text="Every one of the 7,304,484 valid dates, every constructor triple in a superset box, every ISO week triple and every (month, nth, weekday) combination is enumerated and compared with an independent month-table calendar; for these finite domains the exploration is complete (exhaustive: true in evidence), nth_weekday with 32-bit nth is sampled by a limit-biased generator.",
+   text="Every one of the 7,304,484 valid dates, every constructor triple in a superset box, every ISO week triple and every (month, nth, weekday) combination is enumerated and compared with an independent month-table calendar; for these finite domains the exploration is complete (exhaustive: true in evidence), nth_weekday with 32-bit nth is sampled by a limit-biased generator. ISOWeekDate navigation (tomorrow, yesterday, first/last of week and year, weeks_in_year) and the era/ordinal builders are compared for every date.",
    note="Trusted: harness refcal.rs (walked year table + textbook leap rule, self-tested at start-up). crates/jiff-static's copy of itime.rs is exercised by C18, not here.",
    design="DESIGN.md section 3 C01"),
  "C02": dict(
@@ -20,7 +20,7 @@ CHECKS = {
    technique="differential testing against an independent RFC 8536 + POSIX TZ reader on the same bytes; structured sweep of every transition +-{1s,0.5s,1ns} plus proptest-generated probes and generated POSIX TZ strings",
    category="exploration",
    text="Every recorded transition of every installed and bundled zone and of synthetic zic zones, and rule-generated transitions of sampled years, are probed on both sides to the nanosecond and compared with an independent reader of the same data; generated POSIX strings extend the rule space.",
-   note="Trusted: reftz.rs (validated against zdump in the thorough tier). Excluded and counted: files whose footer contradicts their last transition; generated POSIX rules that spill over a year boundary (jiff documents year clamping).",
+   note="Trusted: reftz.rs (validated against zdump in the thorough tier). Excluded and counted: files whose footer contradicts their last transition; generated POSIX rules that spill over a year boundary (jiff documents year clamping). Zero-length daylight periods are generated and judged (standard time throughout).",
    design="DESIGN.md section 3 C03"),
  "C04": dict(
    technique="differential/metamorphic: civil classification derived from the reference reader's instant direction (set of instants displaying the civil time) and from jiff's own instant mapping; structured sweep of every gap/fold window edge + proptest",
@@ -37,7 +37,7 @@ CHECKS = {
  "C06": dict(
    technique="proptest generation of (zone, instant near transitions, span/duration) against a reference interpreter (civil add on day numbers, compatible resolution via the independent zone reader, exact nanosecond add); targeted construction of starts whose civil intermediate lands inside a gap/fold",
    category="exploration",
-   text="Zoned +/- span and absolute durations in checked, saturating and operator forms, plus start_of_day/end_of_day/tomorrow/yesterday, are compared with the reference interpreter over every installed, synthetic and POSIX zone; 19% of span cases have their civil intermediate inside a gap or fold by construction.",
+   text="Zoned +/- span and absolute durations in checked, saturating and operator forms, plus start_of_day/end_of_day/tomorrow/yesterday, are compared with the reference interpreter over every installed, synthetic and POSIX zone; 19% of span cases have their civil intermediate inside a gap or fold by construction; unsigned std Durations include values above 2^63 seconds (checked forms must fail, saturating forms clamp and keep the zone).",
    note="Trusted: reftz.rs, refarith.rs. Two listed findings (start/end of day when midnight lies strictly inside a gap; odd synthetic zones and right/Asia/Tehran only).",
    design="DESIGN.md section 3 C06"),
  "C07": dict(
@@ -55,13 +55,13 @@ CHECKS = {
  "C09": dict(
    technique="round-trip property (parse(print(v)) == v) over proptest-generated values and printer options, plus an independent RFC 3339 reader written from the ABNF as a differential oracle",
    category="exploration",
-   text="Timestamps with every sub-second precision, civil dates/times/datetimes, and zoned datetimes in every database zone around every transition (35% placed inside a fold, on either pass; all sub-minute-offset periods) are printed and parsed back; instant, civil fields, offset and zone must be identical, reduced precision must equal truncation, and an independent reader must decode the same instant.",
+   text="Timestamps with every sub-second precision, civil dates/times/datetimes, and zoned datetimes in every database zone around every transition (35% placed inside a fold, on either pass; all sub-minute-offset periods) are printed and parsed back; instant, civil fields, offset and zone must be identical, reduced precision must equal truncation, an independent reader must decode the same instant, and the text parses back identically under DateTimeParser with offset_conflict prefer-offset/reject and every disambiguation.",
    note="Folds whose two offsets round to the same minute cannot be distinguished by RFC 3339 text (inherent to the format): not judged, counted. Zones are those reachable by name through the global database.",
    design="DESIGN.md section 3 C09"),
  "C10": dict(
    technique="proptest generation of (value on/near the rounding grid, unit, mode, increment incl. illegal ones) against exact integer rounding written from the mode definitions; Zoned oracle via the reference zone reader",
    category="exploration",
-   text="Values are constructed relative to the grid (multiples, midpoints, +-1ns, cell ends) at the type limits, around zero and uniformly, for Timestamp, Time, DateTime (years <= 0 over-weighted), SignedDuration, Offset and Zoned (around every zone's transitions, real day lengths); all nine modes; legal divisors and illegal increments. Results, errors and increment legality are compared with an exact i128 oracle.",
+   text="Values are constructed relative to the grid (multiples, midpoints, +-1ns, cell ends) at the type limits, around zero and uniformly, for Timestamp, Time, DateTime (years <= 0 over-weighted), SignedDuration, Offset and Zoned (around every zone's transitions, real day lengths); all nine modes; legal divisors and illegal increments; the builder's setters are applied in a case-dependent order. Results, errors and increment legality are compared with an exact i128 oracle.",
    note="Trusted: wide.rs round_to (nine modes from their definitions), refcal/reftz. Hour increments other than 1 for SignedDuration/Offset are not settled by the docs: either outcome accepted. Non-contiguous civil days (fold straddling midnight) are not judged for day rounding.",
    design="DESIGN.md section 3 C10"),
  "C11": dict(
@@ -73,7 +73,7 @@ CHECKS = {
  "C12": dict(
    technique="model-based proptest: Span operation histories against a (magnitudes, sign) model with the documented sign rule; SignedDuration ops against one i128 nanosecond count; float constructors against the exact decomposition of the IEEE value",
    category="exploration",
-   text="Histories of try-setters (values in, at and just over each limit), negate, abs and checked_mul are interpreted step by step against the model; SignedDuration add/sub/mul/div/neg/abs/saturating/views/constructors and conversions to and from Span and std Duration are compared with exact i128 arithmetic, overflow reported exactly when unrepresentable; float constructors on raw bit patterns and boundary values.",
+   text="Histories of try-setters (values in, at and just over each limit), negate, abs and checked_mul are interpreted step by step against the model; SignedDuration add/sub/mul/div/neg/abs/saturating/views/constructors and conversions to and from Span and std Duration are compared with exact i128 arithmetic, overflow reported exactly when unrepresentable; operator forms, Sum impls and fieldwise (in)equality of Spans included; float constructors on raw bit patterns and boundary values.",
    note="Stated tolerances: +-1ns for f64 constructors (round-to-nearest implied by the rustdoc example), +-64ns for f32 (documented precision loss), 4e-16 relative for float views. SignedDuration::new inputs that are documented to panic are not called.",
    design="DESIGN.md section 3 C12"),
  "C13": dict(
@@ -85,7 +85,7 @@ CHECKS = {
  "C14": dict(
    technique="model-based differential testing of the following/preceding iterators against the reference transition list (explicit + rule-generated), bounded pulls and to-exhaustion runs under a step cap; structured starts around every hand-over + proptest",
    category="exploration",
-   text="Iterators are started on, just before and just after transitions of every zone, at range limits and random instants, in both directions; monotonicity, strictness, per-item info (vs data and vs direct lookup), completeness and absence of spurious items are checked over the covered range; featured/synthetic zones (all zones in thorough) are iterated to exhaustion with a termination cap.",
+   text="Iterators are started on, just before and just after transitions of every zone, at range limits and random instants, in both directions; monotonicity, strictness, per-item info (vs data and vs direct lookup), completeness and absence of spurious items are checked over the covered range; featured/synthetic zones (all zones in thorough) are iterated to exhaustion with a termination cap; POSIX rules whose transitions fall on the first and last representable seconds are part of the universe.",
    note="Trusted: reftz.rs transition list. Recorded transitions that change nothing may be yielded (allowed by the statement).",
    design="DESIGN.md section 3 C14"),
  "C15": dict(
@@ -97,7 +97,7 @@ CHECKS = {
  "C16": dict(
    technique="differential proptest: every strftime specifier x flag x width against the walked reference calendar rendered with jiff's documented padding rules and against glibc strftime (libc) numerically; round trips through generated multi-specifier formats; contradiction injection; RFC 2822 field-by-field independent read",
    category="exploration",
-   text="Zoned values in 19 zones (sub-minute and extreme fixed offsets), dates over-weighted to year boundaries, all specifiers with all flags and widths; strptime(strftime(v)) == v for 21 formats; perturbed weekdays must be rejected; RFC 2822 print/parse incl. obsolete zone names.",
+   text="Zoned values in 31 zones (sub-minute and extreme fixed offsets, names containing +, - and digits), dates over-weighted to year boundaries, all specifiers with all flags and widths; strptime(strftime(v)) == v for 21 formats; perturbed weekdays must be rejected; RFC 2822 print/parse incl. obsolete zone names.",
    note="Text layout follows jiff's own documented table (POSIX fidelity is a documented non-goal); only calendar facts are compared with glibc. Listed findings: padding widths > 19 are capped; %A cannot parse 'Tuesday' (typo pinned by a snapshot test).",
    design="DESIGN.md section 3 C16"),
  "C17": dict(
@@ -109,13 +109,13 @@ CHECKS = {
  "C18": dict(
    technique="differential proptest and exhaustive per-zone sweeps: one TZif byte string loaded through every back-end (zoneinfo directory, bundled table, generated Android-style concatenated file, raw bytes, static get!/include! macros) must give byte-identical answer digests; the same digests are computed by a second harness binary built without tz-fat and compared across builds; slim vs fat zic output compared from the first common transition; generated case variants of names; POSIX print/parse round trip on generated rules",
    category="exploration",
-   text="Every bundled and installed zone plus the synthetic corpus, at the C03/C04/C14 probe instants (each transition +-1s/+-0.5ns, civil gap/fold edges, far past/future): offset info, civil resolution, previous/next transitions, printing. Name lookup with random case changes returns the canonical spelling. Generated POSIX rules (J/n/M dates, negative and >24h times, quoted abbreviations) print to a string that parses to a zone with identical answers.",
+   text="Every bundled and installed zone plus the synthetic corpus, at the C03/C04/C14 probe instants (each transition +-1s/+-0.5ns, civil gap/fold edges, far past/future): offset info, civil resolution, previous/next transitions, printing. Name lookup with random case changes returns the canonical spelling. Generated POSIX rules (J/n/M dates, negative and >24h times, quoted abbreviations) print to a string that parses to a zone with identical answers. Generated slim TZif files whose footer rule needs local time types absent from the table (longer/shorter designations, look-alike types) are loaded, and the fattened answers compared with the reference reading of table + footer.",
    note="The tz-fat-off configuration is a second build of the same harness (target-nofat) whose digest is compared line by line. tz::include! is exercised on the synthetic corpus at harness build time (build.rs); the jiff-static copy of shared code is therefore compared with the original on the same bytes.",
    design="DESIGN.md section 3 C18"),
  "C19": dict(
    technique="stateful (model-based) proptest over histories of lookups, resets, on-disk file changes and TTL changes against a private zoneinfo tree whose file versions identify themselves; plus multi-threaded stress with a version-window oracle and a no-progress watchdog",
    category="exploration",
-   text="Histories of 1..30 operations are checked step by step against a model of disk, names index and per-entry cache; allowed results follow the statement (exactly the current version once the TTL has passed or after reset, cached-or-current inside the TTL, never another zone's data, canonical spelling, available() == index view). A second model covers the concatenated (Android tzdata) back-end: lookups in four spellings, reset, file replacement and TTL changes against a generated tzdata file. Stress rounds run 2/4/16 threads against one database while files are replaced atomically.",
+   text="Histories of 1..30 operations are checked step by step against a model of disk, names index and per-entry cache; allowed results follow the statement (exactly the current version once the TTL has passed or after reset, cached-or-current inside the TTL, never another zone's data, canonical spelling, available() == index view). A second model covers the concatenated (Android tzdata) back-end: lookups in four spellings, reset, file replacement and TTL changes against a generated tzdata file. Stress rounds run 2/4/16 threads against one database while files are replaced atomically; reset storms (long TTL, unchanged disk, worker lookups racing 1500 resets) require every lookup of an existing zone to succeed.",
    note="Uses the cfg(jiff_verif) hook TimeZoneDatabase::__verif_set_ttl. Thread interleavings are sampled, not enumerated (std RwLock cannot be intercepted without non-additive changes). An entirely empty tree (documented: names are kept when the walk fails) is not generated.",
    design="DESIGN.md section 3 C19"),
  "C20": dict(
